@@ -659,6 +659,49 @@ CHECKS["C20"] = {
 }
 
 
+C16_GROUPS = [
+    ({}, "// ", ["go.mod", "legacy.mod", "x.y.go.mod", "sub/go.mod", "sub/other.mod", "mod"]),
+    ({}, "// ", ["go.sum", "sha256.sum", "sub/go.sum", "x.sum"]),
+    ({}, "// ", ["go.work", "x.work", "sub/go.work"]),
+    ({}, "// ", ["a.d.ts", "b.ts", "c.d.ts.bak", "d.x.ts", "e.d.js"]),
+    ({}, "# ", ["Makefile", "x.Makefile", "sub/makefile", "Makefile.bak", "sub/Makefile"]),
+    ({"cxx": "cpp"}, "// ", ["t.cxx", "u.cxx", "v.x.cxx", "cxx", "w.cpp"]),
+    ({"a.b": "py"}, "# ", ["x.a.b", "y.b", "a.b", "z.c.b", "sub/q.a.b"]),
+    ({"mod": "py"}, "# ", ["go.mod", "legacy.mod", "x.go.mod"]),
+]
+
+
+def c16_multi(rep, tier, seed):
+    """several files in one run whose names share a last suffix but resolve differently (compound registered names,
+    compound -E keys, extension-less names): the grammar of one file must not depend on the others or on the visiting order"""
+    import random
+    rep.rules.append("2-5 files per run drawn from families sharing their last suffix (go.mod / legacy.mod / x.y.go.mod, go.sum / sha256.sum, a.d.ts / b.ts, Makefile / x.Makefile, -E cxx=cpp, compound -E a.b=py, -E mod=py) in random visiting order, every file holding one block in the family's comment syntax; the files listed in-process and by the binary's `list` vs the per-file proved lookup")
+    n = n_for(tier, 400, 4000)
+    rnd = random.Random(seed * 31 + 5)
+    raws = []
+    for k in range(n):
+        extra, c, names = rnd.choice(C16_GROUPS)
+        picked = rnd.sample(names, rnd.randint(2, min(5, len(names))))
+        if rnd.random() < 0.3:
+            e2, c2, n2 = rnd.choice(C16_GROUPS)
+            if not e2:
+                picked += [x for x in rnd.sample(n2, 1) if x not in picked]
+        files = [{"path": p, "text": f"{c}<block name=\"k{i}\">\nv{i}\n{c}</block>\n"} for i, p in enumerate(picked)]
+        walk = list(picked); rnd.shuffle(walk)
+        raws.append({"files": files, "walk": walk, "allow": list(picked), "ignore": [], "scan": True, "extra": extra,
+                     "meta": {"gen": "lookup-multi", "k": k}})
+    d = os.path.join(K.WORK, rep.prop, "multi")
+    __import__("shutil").rmtree(d, ignore_errors=True); os.makedirs(d)
+    with open(os.path.join(d, "raw.jsonl"), "w") as f:
+        for r in raws:
+            f.write(json.dumps(r) + "\n")
+    K.sh([K.BWH, "replay", "--out", d, os.path.join(d, "raw.jsonl")])
+    K.run_model(os.path.join(d, "cases.jsonl"), os.path.join(d, "model.jsonl"))
+    rows = [(json.loads(a), json.loads(b), json.loads(c)) for a, b, c in zip(open(os.path.join(d, "cases.jsonl")), open(os.path.join(d, "impl.jsonl")), open(os.path.join(d, "model.jsonl")))]
+    K.correspondence(rep, rows, "multi-file lookup", has_blocks)
+    cli_correspondence(rep, rows, "multi-file lookup", n_for(tier, 120, 1200), subs=("list",))
+
+
 def c16_run(rep, tier, seed, tr):
     import cli as C
     rep.rules.append("every registered suffix x 15 file-name shapes (s, b.s, b.x.s, .b.s, b.s.bak, upper case, directories with dots, spaces, trailing dot, ..) x 8 -E maps (none, new extensions, remap of a registered key, remap of a proper suffix of a compound key, remap onto Makefile), plus random dotted names: the grammar class chosen by the real lookup vs the Lean lookup over the regenerated table; -E validation through the binary; non-trivial = a grammar is chosen")
@@ -683,6 +726,7 @@ def c16_run(rep, tier, seed, tr):
             if bad <= 3:
                 rep.violation({"property": rep.prop, "component": "lookup", "what": "grammar chosen by the real lookup differs from the proved lookup over the regenerated table",
                                "case": case, "impl": impl, "model_parser": model, "model_class": want})
+    c16_multi(rep, tier, seed)
     # -E validation and end-to-end use of a remap through the binary
     scen = [
         (["-E", "cxx=cpp", "list"], {"x.cxx": "// <block name=\"a\">\n// </block>\n"}, 0, "x.cxx"),
@@ -827,7 +871,13 @@ def c15_scenario(rnd, k):
         diff_files = rnd.sample(cand, min(len(cand), rnd.randint(0, 3)))
     diff = ""
     for p in diff_files:
-        diff += f"diff --git a/{p} b/{p}\nindex 1..2 100644\n--- a/{p}\n+++ b/{p}\n@@ -2 +2 @@\n-older\n+" + allf[p].split("\n")[1] + "\n"
+        # one entry in three is a rename / copy: the `---` side names another path (existing or not, possibly ignored
+        # or outside the globs); only the `+++` path is in scope
+        src = p
+        if rnd.random() < 0.33:
+            src = rnd.choice([q for q in list(allf) if q != p] + ["legacy/old_" + p.rsplit("/", 1)[-1], "b/" + p])
+        head = f"diff --git a/{src} b/{p}\n" + (f"similarity index 90%\nrename from {src}\nrename to {p}\n" if src != p else "")
+        diff += head + f"index 1..2 100644\n--- a/{src}\n+++ b/{p}\n@@ -2 +2 @@\n-older\n+" + allf[p].split("\n")[1] + "\n"
     sub = rnd.choice(["", "", "src", "b/b", "docs/x y"])
     hidden = lambda p: any(part.startswith(".") for part in p.split("/"))
     ignored_git = lambda p: p == "secret.py" and "secret.py" in gitignore or p.startswith("out/") and "out/" in gitignore or p.endswith(".log.py") and "*.log.py" in gitignore
